@@ -316,3 +316,49 @@ def branch_edges(fn, value_inst):
             elif u.op == "phi":
                 pass
     return res
+
+
+def dom_ctx(fn, inst):
+    """facts that hold on EVERY path reaching `inst`: conditions of branches one of whose successors dominates
+    inst's block while the other does not (edge dominance), decomposed through and/or/select/not.
+    Cheap alternative to path enumeration for functions with many independent branches."""
+    ctx = PathCtx(fn)
+    target = inst.block.id
+    idom, VR = fn.idom()
+    chain = []
+    b = target
+    while b in idom and b != VR:
+        chain.append(b)
+        nb = idom[b]
+        if nb == b:
+            break
+        b = nb
+    chain.reverse()
+    for bid in chain:
+        blk = fn.blocks[bid]
+        t = blk.term
+        if t.op != "br" or len(t.d.get("succs", [])) != 2:
+            continue
+        st, sf = t.d["succs"]
+        if st == sf:
+            continue
+        def edge_dominates(s, other):
+            if not fn.block_dominates(s, target) or fn.block_dominates(other, target) and other != s:
+                return False
+            # entering s must imply the edge blk->s was taken: every other predecessor of s is dominated by s (back edges)
+            for p in fn.blocks[s].preds:
+                if p.id != bid and not fn.block_dominates(s, p.id):
+                    return False
+            return True
+        if bid == target:
+            continue
+        if edge_dominates(st, sf):
+            ctx.learn(t.ops[0], True)
+        elif edge_dominates(sf, st):
+            ctx.learn(t.ops[0], False)
+    # assumes in dominating blocks
+    for bid in chain:
+        blk = fn.blocks[bid]
+        hi = inst.idx if bid == target else None
+        ctx.scan(blk, 0, hi)
+    return ctx
